@@ -128,7 +128,7 @@ Lemma conn_gone s c (sd : bool) f b s' o :
 Proof.
   intros H. apply step_inv in H as (m & m' & Hpre & Hs & -> & _).
   assert (m = push_remove (m_init s) c sd) as -> by (destruct sd; injection Hpre as <-; reflexivity).
-  destruct (fuel_for_S (ms (push_remove (m_init s) c sd))) as [fu Hfu]. rewrite Hfu in Hs.
+  destruct (fuel_for_S ((push_remove (m_init s) c sd))) as [fu Hfu]. rewrite Hfu in Hs.
   rewrite settle_unfold in Hs.
   change (settle_one (push_remove (m_init s) c sd))
     with (Some (shutdown_conn (push_remove (m_init s) c sd <| mw; w_remove_conns := [] |>) c sd)) in Hs.
@@ -530,7 +530,7 @@ Lemma release s c cs (sd : bool) f b s' o :
 Proof.
   intros Hu E H. apply step_inv in H as (m & m' & Hpre & Hs & -> & _).
   assert (m = push_remove (m_init s) c sd) as -> by (destruct sd; injection Hpre as <-; reflexivity).
-  destruct (fuel_for_S (ms (push_remove (m_init s) c sd))) as [fu Hfu]. rewrite Hfu in Hs.
+  destruct (fuel_for_S ((push_remove (m_init s) c sd))) as [fu Hfu]. rewrite Hfu in Hs.
   rewrite settle_unfold in Hs.
   change (settle_one (push_remove (m_init s) c sd))
     with (Some (shutdown_conn (push_remove (m_init s) c sd <| mw; w_remove_conns := [] |>) c sd)) in Hs.
